@@ -601,8 +601,11 @@ def run_check(P, tier, seed, replay=None):
           "assumptions": list(getattr(P, "ASSUMPTIONS", [])), "wall_s": round(wall, 2),
           "violations": len(res.violations)}
     if not replay:
-        os.makedirs(os.path.join(VERIF, "evidence"), exist_ok=True)
-        with open(os.path.join(VERIF, "evidence", "%s.json" % pid), "w") as fh:
+        # seeded-change runs (tools/run_seed.py, tools/rerun_seeds.py) redirect their evidence so that the committed
+        # evidence always describes a run on the unchanged tree
+        evdir = os.environ.get("FV_EVIDENCE_DIR") or os.path.join(VERIF, "evidence")
+        os.makedirs(evdir, exist_ok=True)
+        with open(os.path.join(evdir, "%s.json" % pid), "w") as fh:
             json.dump(ev, fh, indent=1)
     say("%s tier=%s seed=%d theorems=%d/%d cases=%d nontrivial=%d impl-failures=%d disagreements=%d known=%d violations=%d wall=%.1fs" % (
         pid, tier, seed, discharged, len(names), evaluations, len(nontrivial), len(F), len(D), len(res.known),
